@@ -48,7 +48,7 @@ def lvl(name, n):
 def metrics_einsums(draw, n_min=1, n_max=1, max_vars=3, allow_partition=True):
     """a cascade of simple product Einsums with explicit loop orders and spacetime for every Einsum"""
     n = draw(st.integers(n_min, n_max))
-    kind = draw(st.sampled_from(["plain"] * 5 + ["affine", "flatten", "flatten", "lf3", "lf3", "flatmerge"])) if n_min == 1 else "plain"
+    kind = draw(st.sampled_from(["plain"] * 8 + ["affine", "flatten", "flatten", "lf3", "lf3", "flatmerge", "lf2", "lf2"])) if n_min == 1 else "plain"
     if kind == "lf3":
         # three tensors co-iterated at one rank (leader-follower intersection of three fibers, any of them leading)
         pl = gen.plain
@@ -75,6 +75,35 @@ def metrics_einsums(draw, n_min=1, n_max=1, max_vars=3, allow_partition=True):
         sp_ = lo[:k] if draw(st.booleans()) else []
         spec["spacetime"]["Z"] = {"space": sp_, "time": [r for r in lo if r not in sp_]}
         spec["hint"] = {"isect": [["K", ["A", "B", "C"]]], "type": "leader-follower"}
+        return spec, {}
+    if kind == "lf2":
+        # two tensors that share TWO ranks (K, J; K optionally split): one leader-follower intersector can be bound to several
+        # ranks / levels of the same Einsum, each with its own leader
+        pl = gen.plain
+        a_r = ["k", "j"] + (["m"] if draw(st.integers(0, 3)) > 0 else [])
+        b_r = ["k", "j"] + (["n"] if draw(st.integers(0, 3)) > 0 else [])
+        a_r, b_r = list(draw(st.permutations(a_r))), list(draw(st.permutations(b_r)))
+        outv = [v for v in ("m", "n") if v in a_r + b_r and draw(st.integers(0, 3)) > 0]
+        if draw(st.integers(0, 3)) == 0:
+            outv.append("j")
+        outv = list(draw(st.permutations(outv)))
+        facs = [{"t": "A", "idx": [pl(r) for r in a_r]}, {"t": "B", "idx": [pl(r) for r in b_r]}]
+        if draw(st.booleans()):
+            facs.reverse()
+        decl = [["A", [r.upper() for r in a_r]], ["B", [r.upper() for r in b_r]], ["Z", [v.upper() for v in outv]]]
+        spec = {"decl": decl, "exprs": [{"out": ["Z", [pl(v) for v in outv]], "terms": [{"take": None, "factors": facs}]}],
+                "rank_order": {}, "loop_order": {}, "partitioning": {}, "spacetime": {}, "extra": {}}
+        groups = [[v.upper()] for v in S.expr_vars(spec["exprs"][0])]
+        split = draw(st.sampled_from([None, "uniform_shape(2)", "uniform_occupancy(A.2)", "uniform_occupancy(B.2)"]))
+        if split:
+            spec["partitioning"] = {"Z": [["K", [split]]]}
+            groups = [g if g != ["K"] else ["K1", "K0"] for g in groups]
+        lo = draw(gen.interleave(list(draw(st.permutations(groups)))))
+        spec["loop_order"]["Z"] = lo
+        k = draw(st.integers(0, len(lo)))
+        sp_ = lo[:k] if draw(st.booleans()) else []
+        spec["spacetime"]["Z"] = {"space": sp_, "time": [r for r in lo if r not in sp_]}
+        spec["hint"] = {"isect": [], "type": "leader-follower", "isect_many": True}
         return spec, {}
     if kind == "flatmerge":
         # an input with two ranks that are adjacent in its declaration flattened statically, a loop order that needs the flattened
@@ -369,7 +398,7 @@ def hardware_for(draw, spec, configs=("accel",), force=None):
             else:
                 entry.append({"component": names["add"], "bindings": [{"op": "add"}]})
         expr = [e for e in spec["exprs"] if S.out_name(e) == out][0]
-        if isect_type and (hint.get("isect") or draw(st.integers(0, 3)) > 0):
+        if isect_type and (hint.get("isect") or hint.get("isect_many") or draw(st.integers(0, 3)) > 0):
             # ranks where exactly two input tensors are co-iterated
             cand = [(r_, list(hs_)) for r_, hs_ in hint.get("isect", [])]
             hinted = set(r_ for r_, _ in cand)
@@ -378,7 +407,7 @@ def hardware_for(draw, spec, configs=("accel",), force=None):
                 if r not in hinted and (len(hs) == 2 or (len(hs) == 3 and isect_type == "leader-follower")):
                     cand.append((r, hs))
             if cand:
-                chosen = list(draw(st.permutations(cand)))[:draw(st.sampled_from([1, 2, 2]))]
+                chosen = list(draw(st.permutations(cand)))[:draw(st.sampled_from([2, 2, 3] if hint.get("isect_many") else [1, 2, 2]))]
                 # two levels of one partitioned rank, each with its own leader
                 pairs = [(x, y) for x in cand for y in cand if x[0] != y[0] and x[0].rstrip("0123456789") == y[0].rstrip("0123456789")
                          and x[0] not in hinted and y[0] not in hinted]
